@@ -11,7 +11,7 @@ from fractions import Fraction
 from . import twin
 
 PRESENT = ["list", "ndarray", "tuple", "fortran"]
-LABELS = [None, "step", "mix it", "two\nlines", "transfer_7", "x" * 20, "", "sample {i}", "50 % {} of %s", "a\\b 'q' \"d\" (0)", "two  blanks   inside", "tab\tinside"]
+LABELS = [None, "step", "mix it", "two\nlines", "transfer_7", "x" * 20, "", "sample {i}", "50 % {} of %s", "a\\b 'q' \"d\" (0)", "two  blanks   inside", "tab\tinside", " padded label ", "trailing "]
 
 
 def mk_plate(name, R, C, minv, maxv, init, names=None):
